@@ -348,6 +348,11 @@ def check(run: Run) -> None:
     from ..report import run_stage
 
     run_stage(run, "c05", only={"C05.R3"})
+    run.rule("C06.R8", "every operator feeds what parse_as_ast hands back - whatever form the lambda was given in - through resolve_syntatic_sugar before type following (C01.R1-R3 re-evaluated)")
+    from ..report import Relabel as _Rl
+    from .c01 import check_plumbing as _plumb
+
+    _plumb(_Rl(run, "C06.R8"), m)
 
 
 def _raise_precedes(fa, r: ast.Raise, b: ast.Call) -> bool:
